@@ -245,6 +245,10 @@ def install(I):
                 f = I.ufunc("str_len", core.I, core.I)
                 yield SV(INT, f(v.tree)), st
                 return
+            if t == "opt":
+                for _, s in I.partial(st, z3.Not(v.tree[0]), "TypeError", None):
+                    yield from _len(I, s, [SV(v.kind.args[0], v.tree[1])], kw)
+                return
         raise Unsupported("len(%r)" % (v,))
 
     def card(arr):
@@ -1019,9 +1023,32 @@ def install(I):
             return
         raise Unsupported("hasattr on %r" % (obj,))
 
+    def id_fun():
+        return I.ufunc("py_id", core.I, core.I)
+
+    def alive_fun():
+        f = I.ufunc("alive", core.I, core.B)
+        if not getattr(I, "_id_ax", False):
+            I._id_ax = True
+            a, b = z3.Ints("id_a id_b")
+            I.axioms.append(z3.ForAll([a, b], z3.Implies(z3.And(f(a), f(b), id_fun()(a) == id_fun()(b)), a == b)))
+            I.assumptions_used.add("A-id: id(o) is an integer, equal for the same object and distinct for two objects alive at the same "
+                                   "time; otherwise unconstrained (ids may be reused after an object dies)")
+        return f
+
     @reg("id")
     def _id(I, st, args, kw):
-        raise Unsupported("id() (A-id): use a contract")
+        o = args[0]
+        if not (isinstance(o, SV) and o.kind.tag == "obj"):
+            raise Unsupported("id() of a non-object")
+        alive_fun()
+        yield SV(INT, id_fun()(o.tree)), st
+
+    @reg("alive")
+    def _alive(I, st, args, kw):
+        """spec builtin: the object is alive (referenced) at this point"""
+        o = args[0]
+        yield SV(BOOL, alive_fun()(o.tree)), st
 
     @reg("iter")
     def _iter(I, st, args, kw):
@@ -1029,7 +1056,26 @@ def install(I):
 
     @reg("next")
     def _next(I, st, args, kw):
-        raise Unsupported("next()")
+        """next(iter(xs)): the first element in iteration order -- modelled as *some* element (arbitrary order)"""
+        src = args[0]
+        spec = I.to_iterspec(st, src)
+        if spec.mode == "concrete":
+            if spec.items:
+                yield spec.items[0], st
+            elif len(args) > 1:
+                yield args[1], st
+            else:
+                yield from I.raise_exc(st, "StopIteration")
+            return
+        if spec.mode == "seq":
+            for _, s in I.partial(st, spec.length > 0, "StopIteration", None):
+                yield spec.elt(z3.IntVal(0)), s
+            return
+        x = z3.Const(core.fresh_name("first"), keysort(spec.ekind))
+        nonempty = spec.mem != z3.K(keysort(spec.ekind), FALSE)
+        I.define([z3.Implies(nonempty, z3.Select(spec.mem, x))])
+        for _, s in I.partial(st, nonempty, "StopIteration", None):
+            yield spec.elem(x, s), s
 
     @reg("copy.deepcopy")
     def _deepcopy(I, st, args, kw):
@@ -1152,7 +1198,7 @@ def install(I):
         h = I.lib.get("method:%s.%s" % (t, name))
         if h is None:
             if t == "opt":
-                inner = SV(recv.kind.args[0], recv.tree[1], recv.origin)
+                inner = SV(recv.kind.args[0], recv.tree[1], ("optval", recv.origin, recv.kind) if recv.origin else None)
                 for _, s in I.partial(st, z3.Not(recv.tree[0]), "AttributeError", None):
                     yield from call_method(s, inner, name, args, kw)
                 return
